@@ -41,7 +41,10 @@ func genC17(rng *rand.Rand, tier string) *sim.Plan {
 		"fed_gossip_max_us": fmt.Sprint(pick(rng, []int{5000, 800000})),
 	}
 	// per node: two plain subscribers, two share-group members, one publisher
-	type nodeClients struct{ plain, shared []int; pub int }
+	type nodeClients struct {
+		plain, shared []int
+		pub           int
+	}
 	var nc []nodeClients
 	add := func(name string) int {
 		p.Clients = append(p.Clients, sim.ClientSpec{ID: name, Ver: pick(rng, []byte{4, 5})})
